@@ -29,7 +29,7 @@ constructors.  Name resolution itself is the `Names` layer (C04/C07), C3 the `Mr
 The model follows the code as fixed by cb98646 (a superseded duplicate `'x 0'` is not visible:
 `isVisible` requires the object to be its parent's `contents` entry), aaed9bd (`taglink` renders the plain
 label when the target is not visible: `taglinkGuard`), 4b6324b (the index pages skip hidden roots), f972163 (`reparent` refreshes the linker's page), a09aa28 (`IndexPage`
-also when no root is visible), 5201211 (no root alias over a summary page), a3977d7 (none for a hidden root), fb55ab8 (undoccedSummary marker), d869973 (class-private `__names` override and mask nothing), 1da744b (`format_docstring` renders under
+also when no root is visible), 5201211 (no root alias over a summary page), a3977d7 (none for a hidden root), fb55ab8 (undoccedSummary marker), d869973 (class-private `__names` override and mask nothing), 2972983 (class-index row marker `classRowPrivate`), 1da744b (`format_docstring` renders under
 `switch_context(obj)`), 0ff33e4 (also the late-formatted `@see`/`@note`/`@author`/`@since` fields: row `fieldXref`), 97be2c0 (`findRootClasses` appends a root class to the list already stored under
 its name), 07382d3 (`reparent` updates `parentMod` of what is inside a moved class; `modul` is input).
 `requests s` = every `taglink` call / listing entry the page code makes; `emits s` = what is left of them
@@ -577,6 +577,12 @@ def classNodePrivate (s : Sys) : Nat → Nat → Bool
   | 0, _ => false
   | f+1, c => ctxPrivate s c && (s.ob c).subclasses.all (classNodePrivate s f)
 
+/-- the private marker of a class-index entry (`summary.subclassesFrom`, since 2972983): the `<li>` of the node when
+`isClassNodePrivate` (the class and all its subclasses are private), otherwise the row `<div>` of the class alone when
+`summary.isPrivate(cls)`. Before 2972983 only the first: `classNodePrivate s s.n c`. -/
+def classRowPrivate (s : Sys) (c : Nat) : Bool :=
+  classNodePrivate s s.n c || (ctxPrivate s c && !classNodePrivate s s.n c)
+
 /-- `summary.subclassesFrom`: classes listed below (and including) `c` -/
 def subclassesFrom (s : Sys) : Nat → Nat → List Nat
   | 0, _ => []
@@ -617,7 +623,7 @@ def classIndexListed (s : Sys) : List Nat :=
 
 def classIndexEmits (s : Sys) : List Emit :=
   (classIndexListed s).flatMap fun c =>
-    entry .classIndex (.summary .classIndex) (some (.summary .classIndex)) c (classNodePrivate s s.n c)
+    entry .classIndex (.summary .classIndex) (some (.summary .classIndex)) c (classRowPrivate s c)
     :: sumLinks s .classIndexSum (.summary .classIndex) c
 
 /-- the unlinked root nodes of classIndex.html: the name of the unresolved / not visible base, and
